@@ -11,15 +11,16 @@ LEVEL_TEXT = ('bounded symbolic execution (CrossHair/z3) of the real simplify_sp
 LEVEL_NOTE = ('versions are abstracted to points of a dense total order (3 version points, 7 probe '
               'points: a complete set of representatives for the comparison operators); stub '
               'Specifier/SpecifierSet classes provide exactly the interface the code uses; the final '
-              'textual re-parse inside simplify_specifiers is replaced by a table lookup; field '
-              'quoting of Cflags/Libs and what pkg-config does with the file are outside this check')
+              'textual re-parse inside simplify_specifiers is replaced by a table lookup; the '
+              'field-quoting kernel uses rpc, a reference model of pkgconf 1.8 field reading and '
+              'printing validated against the real pkg-config per run, then sh parsing (rsh) as the '
+              'consumer; directory (-I/-L) fragments and Requires lines are not driven through it')
 HARNESS = 'vpx.harness.c17'
 FUNCTIONS = ['bfg9000.versioning.simplify_specifiers', 'bfg9000.builtins.pkg_config.Requirement.'
              '__iand__', 'Requirement.split', 'RequirementSet.add', 'RequirementSet.merge_from',
              'RequirementSet.split', 'SimpleRequirement.__init__']
 OUTSIDE = ['more specifiers per name than the bound', 'operators ~= and === (rejected as invalid)',
-           'the textual form of versions (PEP 440 parsing is verspec\'s)', 'Cflags/Libs field '
-           'quoting and pkg-config\'s own reading of the .pc file', 'compiling a consumer',
+           'the textual form of versions (PEP 440 parsing is verspec\'s)', 'compiling a consumer', '-I/-L fragments (pkgconf filters and reorders them)', 'characters no .pc spelling can deliver ($ and parentheses: established at run time)',
            'pkgconf does not evaluate Conflicts in this sandbox\'s version, so Conflicts semantics '
            'are only checked as "conjunction of the emitted entries == original set"']
 STUBS = ['verspec Specifier/SpecifierSet -> Spec/SpecSet over integer points (vpx/harness/c17.py)']
@@ -27,13 +28,14 @@ ASSUMPTIONS = ['version comparison is a total order; the comparison operators of
                'it (replay uses real verspec objects)']
 EXHAUSTIVE = True
 FNS = ['s_simplify', 'm_merge', 'c_conflicts']
+FUNCTIONS_PC = ['bfg9000.builtins.pkg_config.PkgConfigWriter._write_field/_write_value', 'bfg9000.shell.syntax.Writer.write/write_each', 'posix.quote_info']
 
 
 def bounds(tier):
     return {'specifiers_per_set': 'simplify: 0..3 quick / 0..4 thorough; merge and conflicts: 0..2 '
                                   'quick / 0..3 thorough (exact count per obligation; counts >= 3 '
                                   'partitioned by the first specifier)',
-            'version_points': 3, 'probe_points': 7, 'operators': ['==', '!=', '>', '>=', '<', '<=']}
+            'version_points': 3, 'probe_points': 7, 'pc_field_option_length': '0..2 quick / 0..3 thorough, all Unicode minus the run-time established unrepresentable set %r' % pc_probe(), 'operators': ['==', '!=', '>', '>=', '<', '<=']}
 
 
 def obligations(tier, kf):
@@ -54,7 +56,57 @@ def obligations(tier, kf):
     obs.append(Ob('s_simplify', {'K': 3, 'F': 1, 'G': -1}, 600).mutant('simplify_ignores_ne'))
     obs.append(Ob('m_merge', {'K': 3, 'F': 1, 'G': -1}, 600).mutant('simplify_ignores_ne'))
     obs.append(Ob('s_simplify', {'K': 2, 'F': -1, 'G': -1}, 300).mutant('simplify_max_for_lt'))
+    excl = pc_probe()
+    for n in range(0, (2 if quick else 3) + 1):
+        obs.append(Ob('q_define', dict(kf, N=n, K=1, pc_excl=excl), {0: 60, 1: 120, 2: 400, 3: 2000}[n],
+                      desc='Cflags field quoting, |s|==%d' % n))
+    obs.append(Ob('q_define', dict(kf, N=1, K=1, pc_excl=excl), 120).twin())
+    obs.append(Ob('q_define', dict(kf, N=1, K=1, pc_excl=excl), 300).mutant('pc_no_hash_escape'))
+    obs.append(Ob('q_define', dict(kf, N=1, K=1, pc_excl=excl), 300).mutant('posix_quote_safe'))
     return obs
+
+
+import functools
+
+
+@functools.lru_cache(None)
+def pc_probe():
+    """characters a .pc field cannot deliver to the consumer whatever the spelling: for each
+    printable ASCII character c try -DX=a<c>b written raw, single-quoted, backslash-escaped and
+    quote-exited-backslash-escaped in a hand-written .pc file, read it with the real pkg-config
+    and parse the output with the real /bin/sh"""
+    import subprocess
+    from concurrent.futures import ThreadPoolExecutor
+    from vpx import conformance as cf
+
+    def works(c):
+        want = '-DX=a' + c + 'b'
+        for sp in (want, "'" + want + "'", '-DX=a\\' + c + 'b', "'-DX=a'\\" + c + "'b'"):
+            out = cf.real_pkgconfig_cflags('-DQ ' + sp + ' -DZ')
+            if isinstance(out, tuple):
+                continue
+            with cf.Scratch() as sc:
+                r = cf.real_sh('prog ' + out, sc.dir, 0, 'prog')
+            if not isinstance(r[0], str) and r[1] == ['prog', '-DQ', want, '-DZ']:
+                return True
+        return False
+    chars = [chr(i) for i in range(32, 127) if chr(i) != "'"]
+    with ThreadPoolExecutor(16) as ex:
+        res = list(ex.map(works, chars))
+    return ''.join(c for c, ok in zip(chars, res) if not ok)
+
+
+def conformance(tier):
+    from vpx import conformance as cf
+    k = 2 if tier == 'quick' else 3
+    a, d, bad = cf.check_rpc(list(cf.strings(list("a'\\ #$\"{}()-=%~;"), k, 1)))
+    return [('rpc (pkgconf field reading + printing) vs /usr/bin/pkg-config', a, d, bad)]
+
+
+def classify(ob, cex):
+    if ob.fn == 'q_define' and '\\#' in cex['args'][0]:
+        return 'C17-F17'
+    return None
 
 
 OPS = ['==', '!=', '>', '>=', '<', '<=']
